@@ -175,6 +175,12 @@ func cfgNewObs(c kioshun.Config, m *meta, replay string) *toks {
 	if c.MaxCost > 0 && (int64(n) > c.MaxCost || sumCost != c.MaxCost) {
 		m.violate("C16", fmt.Sprintf("weight budgets: shards=%d sum=%d MaxCost=%d: %s", n, sumCost, c.MaxCost, cfgString(c)), replay)
 	}
+	if c.MaxSize > 0 && sumCap > c.MaxSize {
+		m.violate("C03", fmt.Sprintf("the shards' entry budgets add up to %d, more than MaxSize %d (%d shards): each shard may fill its own budget, so the cache can hold more entries than configured: %s", sumCap, c.MaxSize, n, cfgString(c)), replay)
+	}
+	if c.MaxCost > 0 && sumCost > c.MaxCost {
+		m.violate("C03", fmt.Sprintf("the shards' weight budgets add up to %d, more than MaxCost %d (%d shards): %s", sumCost, c.MaxCost, n, cfgString(c)), replay)
+	}
 	if c.MaxSize == 0 && sumCap != 0 || c.MaxCost == 0 && sumCost != 0 {
 		m.violate("C16", "budget set on an unlimited dimension: "+cfgString(c), replay)
 	}
